@@ -27,7 +27,7 @@ Section Spec.
     exists kv ktype kvno pt et apt au,
       let d := st_skew st in
       let ct := us (au_ctime au) + au_cusec au in
-      let a := mkAuth (join_slash (au_cname au)) ct (tk_sname tk) in
+      let a := mkAuth (join_slash (au_cname au)) ct (eff_sname st tk) in
       (* the ticket decrypts under the keytab key selected by realm, kvno and etype for the service (or override) principal *)
       get_key kt (match st_override st with Some o => o | None => tk_sname tk end)
               (tk_realm tk) (tk_kvno tk) (tk_etype tk) = Ok (kv, ktype, kvno) /\
@@ -96,7 +96,7 @@ Section Spec.
       assert (st_require_addr st && (length (et_caddr et) =? 0)%nat = false) as ->.
       { destruct (st_require_addr st); [|reflexivity]. cbn. specialize (HR eq_refl).
         destruct (et_caddr et); [congruence|reflexivity]. }
-      assert (existsb (auth_eqb (mkAuth (join_slash (au_cname au)) (us (au_ctime au) + au_cusec au) (tk_sname tk))) rc = false) as ->.
+      assert (existsb (auth_eqb (mkAuth (join_slash (au_cname au)) (us (au_ctime au) + au_cusec au) (eff_sname st tk))) rc = false) as ->.
       { destruct (existsb _ rc) eqn:E; [|reflexivity]. apply existsb_auth in E. contradiction. }
       rewrite ECN, ECR. reflexivity.
   Qed.
